@@ -102,7 +102,12 @@ fn gds_case(src: &mut Src, ctx: &mut Ctx) -> Result<(), String> {
         s
     });
     let back: gds21::GdsLibrary = if via_file {
-        let path = scratch_path(&format!("c18.{}", fname));
+        // file names with an extension, without one, and dot-files: save and open must agree on the file
+        let path = scratch_path(match hash_of(&m) % 3 {
+            0 => "c18-plain-name",
+            1 => ".c18dotfile",
+            _ => "c18.markup",
+        });
         SerdeFile::save(&lib, &path, fmt).map_err(|e| format!("save to {} failed: {}", fname, e))?;
         let r = <gds21::GdsLibrary as SerdeFile>::open(&path, fmt);
         let txt = std::fs::read_to_string(&path).unwrap_or_default();
@@ -206,7 +211,18 @@ fn lef_case(src: &mut Src, ctx: &mut Ctx) -> Result<(), String> {
 // ---- GDSII file -> markup -> GDSII file -------------------------------------------------------------------------
 fn markup_case(src: &mut Src, ctx: &mut Ctx) -> Result<(), String> {
     use layout21converters::gds_serialization::{from_markup, to_markup, FromMarkupOptions, ToMarkupOptions};
-    let m = hostile_gds(src);
+    let mut m = hostile_gds(src);
+    // unset (all-zero) time stamps now and then: they are data like any other
+    match src.weighted(&[6, 1, 1]) {
+        1 => m.dates = [0; 12],
+        2 => {
+            m.dates = [0; 12];
+            for st in m.structs.iter_mut() {
+                st.dates = [0; 12];
+            }
+        }
+        _ => {}
+    }
     let lib = to_gds(&m);
     let (_, fname) = fmt_of(src.below(2));
     // the converters' chatty mode prints statistics; it must not change what is converted
